@@ -416,6 +416,73 @@ func TestVerifC08Compile(t *testing.T) {
 	})
 }
 
+const c08Shared = "TestVerifC08Shared"
+
+type c08SharedCase struct {
+	NShard      int  `json:"nshard"`
+	NRows       int  `json:"nrows"`
+	Materialize bool `json:"materialize"`
+	A           int  `json:"a"`
+	B           int  `json:"b"`
+	MC          bool `json:"mc"`
+}
+
+// TestVerifC08Shared enumerates Cogroup(A(s), B(s)) over one shared sub-slice
+// for every ordered pair of consumer kinds: the programs in which the
+// compiler's memo table decides what each consumer gets.
+func TestVerifC08Shared(t *testing.T) {
+	rec := vt.New("C08", "shared-subslice-pairs",
+		fmt.Sprintf("complete enumeration of Cogroup(A(s), B(s)) over one shared sub-slice s = Map(ReaderFunc) for every ordered pair (A, B) of consumer kinds %v x shard counts {1,2,3} x {plain, Materialize pragma on s} x machine combiners on/off; same checks as compile; non-trivial = A != B; distinct by case", progen.SharedKinds))
+	run := func(c c08SharedCase) error {
+		return c08Check(c08Case{Spec: *progen.EnumShared(c.NShard, c.NRows, c.Materialize, c.A, c.B), MachineCombiners: c.MC})
+	}
+	docs, only := vt.Replays(c08Shared)
+	for _, d := range docs {
+		var c c08SharedCase
+		if err := json.Unmarshal(d.Case, &c); err != nil {
+			t.Fatal(err)
+		}
+		rec.Case(true, vt.Hash(string(d.Case)), "replay")
+		if err := run(c); err != nil {
+			rec.Violation(c08Shared, c08Sig(err), err.Error(), c)
+			t.Errorf("replay: %v", err)
+		}
+	}
+	if only || t.Failed() {
+		return
+	}
+	idx := 0
+	failed := map[string]bool{}
+	for a := range progen.SharedKinds {
+		for b := range progen.SharedKinds {
+			for _, nshard := range []int{1, 2, 3} {
+				for _, mat := range []bool{false, true} {
+					for _, mc := range []bool{false, true} {
+						idx++
+						if !vt.Mine(idx) {
+							continue
+						}
+						c := c08SharedCase{nshard, 6, mat, a, b, mc}
+						rec.Case(a != b, vt.Hash("shared", nshard, mat, a, b, mc), "pair:"+progen.SharedKinds[a]+"+"+progen.SharedKinds[b])
+						if a != b && rec.WantSample("shared") {
+							rec.Sample("shared", map[string]interface{}{"case": c, "a": progen.SharedKinds[a], "b": progen.SharedKinds[b]})
+						}
+						if err := run(c); err != nil {
+							sig := c08Sig(err)
+							if !failed[sig] {
+								failed[sig] = true
+								rec.Violation(c08Shared, sig, err.Error(), c)
+								t.Errorf("%+v (%s, %s): %v", c, progen.SharedKinds[a], progen.SharedKinds[b], err)
+							}
+						}
+					}
+				}
+			}
+		}
+	}
+	rec.Exhaustive = true
+}
+
 // TestVerifC08Child is the child side of the cross-process comparison.
 func TestVerifC08Child(t *testing.T) {
 	p := os.Getenv("VERIF_C08_CASES")
